@@ -269,11 +269,12 @@ func C02(r *chk.Run) {
 	r.Assume("differential oracle: the non-indexed scan of the same file (itself compared with the call log by C01); attachment/metadata contents from the reference decoder")
 	r.Assume("SkipMagic and custom-codec configurations are excluded: Reader cannot open/decompress them")
 	r.Rule("indexable configurations (chunk indexes + repeated schemas + repeated channels): file-order indexed sequence must equal the scan element-wise, time orders must be permutations; every other configuration: equal to the scan or an error, never fewer messages; every attachment/metadata index entry is dereferenced; metadata callback counted on both paths")
-	writerSpace(r, so, c02Oracle)
-	// the fall-back decision must not depend on what the Reader was used for before (Info, other iterators)
+	// the fall-back decision must not depend on what the Reader was used for before (Info, other iterators);
+	// this cheap phase runs first so that it is never starved by the writer space on a loaded machine
 	d := 3
 	if r.Thorough() {
 		d = 4
 	}
 	histPhase(r, "C02", d)
+	writerSpace(r, so, c02Oracle)
 }
